@@ -70,6 +70,22 @@ func TranslateContextError(err error) error {
 	return err
 }
 
+// HandlerError normalizes an error returned by a server handler the way a gRPC
+// server does: a nil error or an error that already carries a gRPC status is
+// returned as is, a context error becomes a status with code Canceled or
+// DeadlineExceeded, and any other error (including a stray io.EOF, which a
+// client would otherwise mistake for a clean end of stream) becomes a status
+// with code Unknown.
+func HandlerError(err error) error {
+	if err == nil {
+		return nil
+	}
+	if _, ok := status.FromError(err); ok {
+		return err
+	}
+	return status.FromContextError(err).Err()
+}
+
 // FindUnaryMethod returns the method descriptor for the named method. If the
 // method is not found in the given slice of descriptors, nil is returned.
 func FindUnaryMethod(methodName string, methods []grpc.MethodDesc) *grpc.MethodDesc {
